@@ -348,6 +348,15 @@ impl<H: Host> ZXController<H> {
         }
     }
 
+    /// Restores the 0x7FFD latch from a snapshot. Unlike a port write it is not blocked by the
+    /// paging lock of the machine state which is being replaced
+    pub(crate) fn restore_7ffd(&mut self, val: u8) {
+        if self.machine == ZXMachine::Sinclair128K {
+            self.paging_enabled = true;
+        }
+        self.write_7ffd(val);
+    }
+
     pub fn read_7ffd(&self) -> u8 {
         self.current_port_7ffd
     }
